@@ -4,6 +4,7 @@ import Acra.Drv.SpecSearch
 import Acra.Drv.SpecMpeg
 import Acra.Drv.SpecCh10
 import Acra.Drv.SpecNet
+import Acra.Drv.SpecGolay7
 namespace Acra.Drv
 def specFuncs : List Func := List.flatten [
   specFuncsFTI,
@@ -11,6 +12,7 @@ def specFuncs : List Func := List.flatten [
   specFuncsSearch,
   specFuncsMpeg,
   specFuncsCh10,
-  specFuncsNet
+  specFuncsNet,
+  specFuncsGolay7
 ]
 end Acra.Drv
